@@ -744,3 +744,7 @@ impl transmission::interest::Provider for LocalIdRegistry {
 
 #[cfg(test)]
 mod tests;
+
+#[cfg(all(aws_s2n_quic_verif, any(test, all(kani, feature = "testing"))))]
+#[path = "/verif/harness/transport/local_id.rs"]
+mod verif;
